@@ -58,6 +58,14 @@ fn reg_rule_instr(out: &mut Vec<u8>, arch: Arch, reg: DReg, rule: &RR) {
             uleb(out, rn);
             uleb(out, r2.num(arch));
         }
+        RR::ExprReg(r2, off) | RR::ValExprReg(r2, off) => {
+            out.push(if matches!(rule, RR::ExprReg(..)) { 0x10 } else { 0x16 }); // DW_CFA_(val_)expression
+            uleb(out, rn);
+            let mut e = vec![0x70 + r2.num(arch) as u8]; // DW_OP_breg<n>
+            sleb(&mut e, *off);
+            uleb(out, e.len() as u64);
+            out.extend_from_slice(&e);
+        }
         RR::Other => {
             out.push(0x10); // DW_CFA_expression
             uleb(out, rn);
@@ -74,6 +82,13 @@ fn row_instrs(out: &mut Vec<u8>, arch: Arch, row: &RowSpec) {
             out.push(0x12); // DW_CFA_def_cfa_sf
             uleb(out, r.num(arch));
             sleb(out, off);
+        }
+        Cfa::ExprRegOff(r, off) => {
+            out.push(0x0f); // DW_CFA_def_cfa_expression
+            let mut e = vec![0x70 + r.num(arch) as u8];
+            sleb(&mut e, off);
+            uleb(out, e.len() as u64);
+            out.extend_from_slice(&e);
         }
         Cfa::Expr => {
             out.push(0x0f); // DW_CFA_def_cfa_expression
